@@ -134,6 +134,9 @@ func (propC01) Gen(seed uint64, tier string, idx int) *Plan {
 				size = 1000 + r.Pick(50000)
 			}
 			op.Body = BodySpec{Kind: "anthropic", N: size, Model: model}
+			if r.Chance(600) {
+				op.Body.Tools, op.Body.ToolVariety = r.Pick(4), true
+			}
 		} else {
 			op.Method = pickS(r, []string{"POST", "POST", "POST", "PUT", "PATCH", "DELETE", "GET"})
 			switch {
@@ -159,6 +162,22 @@ func (propC01) Gen(seed uint64, tier string, idx int) *Plan {
 			}
 		}
 		p.Ops = append(p.Ops, op)
+	}
+	if r.Chance(350) {
+		// later waves reuse the engines' pooled upstream connections; some of those die the moment they
+		// are reused (request written, reset before any answer). Requests a transport may legally replay on
+		// its own (idempotent methods, Idempotency-Key) must still arrive whole wherever they end up.
+		waves := 2 + r.Pick(2)
+		for i := range p.Ops {
+			p.Ops[i].At += time.Duration(i%waves) * time.Duration(300+r.Pick(700)) * time.Millisecond
+			if r.Chance(400) {
+				p.Ops[i].Headers = append(p.Ops[i].Headers, [2]string{"Idempotency-Key", fmt.Sprintf("idem-%d", i)})
+			}
+		}
+		for i := range p.Endpoints {
+			p.Endpoints[i].StaleRST = pickS(r, []int{300, 700})
+		}
+		p.Sub += "/waves"
 	}
 	p.Deadline = 90 * time.Second
 	p.Settle = 50 * time.Millisecond
@@ -206,7 +225,7 @@ func (propC01) Check(r *Run) []Violation {
 		}
 		op := r.Op(c.OpID)
 		ep := epCfg[e.Backend]
-		if e.ReqErr != "" || strings.HasSuffix(e.FaultFired, "@accept") {
+		if e.ReqErr != "" || strings.HasSuffix(e.FaultFired, "@accept") || strings.HasSuffix(e.FaultFired, "@reused-conn") {
 			continue // the backend itself cut the request short
 		}
 		route := "proxy"
